@@ -117,6 +117,7 @@ LevelsOK(e, d) == (CheckDesign /\ d.sup /\ Has(e, "lv")) =>
   /\ Chk("B:level-sizes", [h \in 1..Len(ShLevels(d)) |-> Len(ShLevels(d)[h])] = [h \in 1..Len(e.lv) |-> Len(e.lv[h])])
   /\ Chk("B:levels", ShLevels(d) = ObsLevels(e, d))
   /\ Chk("B:k", IF d.fam = "kll" THEN (e.est => d.minK = e.pk) ELSE d.k = e.k /\ d.n = e.n)
+  /\ (Has(e, "caps") => Chk("B:level-capacities", [h \in 1..Len(d.lv) |-> KM!Cap(d.k, Len(d.lv), h - 1)] = e.caps))
   /\ (Has(e, "rq") =>
        /\ Chk("B:req-state", [h \in 1..Len(d.lv) |-> d.lv[h].state] = [h \in 1..Len(e.rq) |-> e.rq[h][1]])
        /\ Chk("B:section-size", [h \in 1..Len(d.lv) |-> <<d.lv[h].nsec, RM!SSize(d.lv[h])>>] = [h \in 1..Len(e.rq) |-> <<e.rq[h][2], e.rq[h][3]>>]))
